@@ -372,11 +372,18 @@ class Evaluator:
         if isinstance(s, ast.Try):
             return self.exec_try(s, fr)
         if isinstance(s, ast.With):
+            opened = []
             for item in s.items:
                 v = self.eval(item.context_expr, fr)
+                if isinstance(v, self.ext.HandleV):
+                    opened.append(v)
                 if item.optional_vars is not None:
                     self.assign(item.optional_vars, v, fr)
-            return self.exec_block(s.body, fr)
+            out = self.exec_block(s.body, fr)
+            for h in opened:
+                h.closed = True
+                h.log.append(("close", id(h)))
+            return out
         if isinstance(s, (ast.FunctionDef,)):
             sub = FunctionInfo(fr.fi.module, fr.fi.qualname + ".<locals>." + s.name, s, None, "nested",
                                [ast.unparse(d) for d in s.decorator_list])
